@@ -348,6 +348,21 @@ def r4_teardown(ctx):
     from .C13 import teardown_reaches_all
     teardown_reaches_all(ctx, 'C12.R4')
     ctx.set_rule('C12.R4')
+    # per module: the user's at_sim_end runs whatever state the module is in (a module that is shut down, or was deactivated by a caught
+    # panic, when the run ends still gets its one tear-down call)
+    g = ctx.P.fns.get(EV + 'at_sim_end')
+    if g is not None:
+        ctx.touch(g)
+        scope_g = [g] + ctx.P.closures_of(g)
+        user = [(h, c) for h in scope_g for c in h.calls() if (c.callee or '').endswith('Module::at_sim_end')]
+        if ctx.floor("call of the user's at_sim_end", len(user), 1):
+            # the site in g that leads to it: the call itself, or the harness call whose closure contains it
+            sites = [c for h, c in user if h is g] + [c for c in g.calls() if c.name.endswith('Harness::exec')]
+            for c in sites[:1]:
+                gated = [a for _, a in g.guard_atoms(c.b) if a and any(x[0] == 'field' and x[2] == 'active' for x in walk(a[1] if len(a) > 1 and isinstance(a[1], tuple) else ()))
+                         or (a and a[0] == 'bool' and a[1][0] == 'call' and a[1][1].endswith(('is_active',)))]
+                ctx.check(not gated, 'teardown-regardless-of-activity', "a module's at_sim_end is delivered whether or not the module is active when the run ends (exactly once per module)",
+                          c.where(), [show_atom(a) for a in gated])
     bad = _reorder_ops(f)
     ctx.check(not bad, 'no-reorder-teardown', 'the module sequence is not reordered or pruned during tear-down', f.where(), [x.name for x in bad])
 
